@@ -354,6 +354,24 @@ def generate(template_path, with_mutants=False):
                         f"pub axiom fn axiom_key_model_{ex.name}()\n    ensures vstd::std_specs::hash::obeys_key_model::<{ex.name}>();\n")
                 text = text + tail
                 ctext = ctext + tail
+            if ex.opts.get("eq") == "spec":
+                # exec `==` on a type whose derived PartialEq Verus cannot see through (String payloads): the derived impl is declared
+                # with the specification "equal exactly when the values are equal" — only while /repo still derives it
+                if "PartialEq" not in r.get("derives", []):
+                    raise Undecided(f"lost anchor: {ex.name} no longer derives PartialEq in {ex.file}; eq=spec refused")
+                n = ex.name
+                tail = (f"// TRUSTED[derive-partialeq-{n}]: #[derive(PartialEq)] in /repo ({ex.file}) compares variants and fields; two values are equal under it\n"
+                        f"// exactly when they are the same value (String fields: the same text)\n"
+                        f"#[allow(non_snake_case)]\npub uninterp spec fn derived_eq_{n}(a: {n}, b: {n}) -> bool;\n"
+                        f"impl vstd::std_specs::cmp::PartialEqSpecImpl for {n} {{\n"
+                        f"    open spec fn obeys_eq_spec() -> bool {{ true }}\n"
+                        f"    open spec fn eq_spec(&self, other: &Self) -> bool {{ derived_eq_{n}(*self, *other) }}\n}}\n"
+                        f"impl PartialEq for {n} {{\n    // TRUSTED[derive-partialeq-{n}]: see above\n    #[verifier::external_body]\n"
+                        f"    fn eq(&self, other: &Self) -> bool {{ unimplemented!() }}\n}}\n"
+                        f"// TRUSTED[derive-partialeq-{n}]: see above\n#[allow(non_snake_case)]\n"
+                        f"pub broadcast axiom fn axiom_derived_eq_{n}(a: {n}, b: {n})\n    ensures #[trigger] derived_eq_{n}(a, b) == (a == b);\n")
+                text = text + tail
+                ctext = ctext + tail
             if ex.opts.get("eq") == "structural":
                 if "PartialEq" not in r.get("derives", []):
                     raise Undecided(f"lost anchor: {ex.name} no longer derives PartialEq in {ex.file}; eq=structural refused")
